@@ -133,7 +133,7 @@ Definition r_text (w : writer) (st : rstate) (ws : wst) (txt : bytes) (u isSet :
       | (ws', Some e) => (st, ws', RErr e)
       end
     else if query st then
-      (* if r.removeQuestionMark && txt[0] == '?' { txt = txt[1:] } *)
+      (* if r.removeQuestionMark && txt[0] == ? { txt = txt[1:] } *)
       let t1 := if remQ st then
                   match txt with
                   | [] => None
@@ -143,7 +143,7 @@ Definition r_text (w : writer) (st : rstate) (ws : wst) (txt : bytes) (u isSet :
       match t1 with
       | None => (st, ws, RFault)
       | Some txt' =>
-        (* if r.addAmpersand && len(txt) > 0 && txt[0] != '&' *)
+        (* if r.addAmpersand && len(txt) > 0 && txt[0] != & *)
         let need := addAmp st && match txt' with [] => false | c :: _ => negb (c =? 38) end in
         let '(ws1, e1) := if need then wr w ws amp_entity else (ws, None) in
         match e1 with
@@ -183,7 +183,7 @@ Definition show_error : werr := 1000.   (* error of showInHTML inside showInURL 
 Definition r_show_url (st : rstate) (s : bytes) (quoted : bool) : rstate * list act :=
   if query st then
     if remQ st then
-      (* if len(s) > 0 { r.addAmpersand = s[len(s)-1] != '&' } *)
+      (* if len(s) > 0 { r.addAmpersand = s[len(s)-1] != & } *)
       let st' := match last_opt s with
                  | None => st
                  | Some c => mkR (inURL st) (query st) (negb (c =? 38)) (remQ st)
@@ -192,7 +192,7 @@ Definition r_show_url (st : rstate) (s : bytes) (quoted : bool) : rstate * list 
     else (st, queryEscape s)
   else if mem s 63 then
     (* r.query = true; r.removeQuestionMark = true;
-       if c := s[len(s)-1]; c != '&' && c != '?' { r.addAmpersand = true } *)
+       if c := s[len(s)-1]; c != & && c != ? { r.addAmpersand = true } *)
     match last_opt s with
     | None => (mkR (inURL st) true (addAmp st) true, [AFault])
     | Some c =>
@@ -222,7 +222,7 @@ Definition r_show (w : writer) (st : rstate) (ws : wst) (c : N) (v : shown) : rs
       | ROk => (st, ws', match sv_err v with Some e => RErr e | None => ROk end)
       | _ => (st, ws', r)
       end
-    else (st, ws, RFault)     (* panic("scriggo: unknown context") *)
+    else (st, ws, RFault)     (* panic(scriggo: unknown context) *)
   end.
 
 Inductive op :=
